@@ -208,6 +208,16 @@ def _replay(job, phase):
                                      want=want_blocks, got=comb, hist=hist))
             elif [list(map(int, b)) for b in expr.event_adapt] != rec['comb']:
                 drift.append(dict(kind='comb_order', want=rec['comb'], got=expr.event_adapt))
+            # the common refinement is symmetric and the same for every way of combining the two decisions
+            # (TLC: CombIsMeet is stated on the unordered pair)
+            for name, mk in (('x2+x1', lambda: xA[1].sum() + xA[0].sum()), ('x1-2*x2', lambda: xA[0].sum() - 2 * xA[1].sum()),
+                             ('x2-x1<=1', lambda: xA[1].sum() - xA[0].sum() <= 1), ('2*x2+x1', lambda: 2 * xA[1].sum() + xA[0].sum())):
+                e2 = mk()
+                got2 = sorted(sorted(int(s_) for s_ in b) for b in e2.event_adapt)
+                if got2 != want_blocks:
+                    findings.append(dict(sig='C13:comb-not-meet:%s' % name.replace('*', '').replace('<=1', '-row'), prop='C13',
+                                         what='partition of %s is not the common refinement' % name, want=want_blocks, got=got2, hist=hist))
+                    break
         except AttributeError:
             notes.append('no event_adapt on expression')
 
